@@ -1,3 +1,7 @@
 import Properties.C17
 import Properties.C13
 import Properties.C18
+import Properties.C01
+import Properties.C02
+import Properties.C05
+import Properties.C10
